@@ -24,6 +24,7 @@ static ExecResult execute(const Scenario &sc, const std::vector<int> &prefix, co
         sc.prepare();
         std::vector<std::string> refs(sc.nthreads), outs(sc.nthreads);
         for (int t = 0; t < sc.nthreads; t++) refs[t] = sc.work(t);
+        if (sc.before_run) sc.before_run();
         std::vector<std::function<void()>> bodies; for (int t = 0; t < sc.nthreads; t++) bodies.push_back([&, t] { outs[t] = sc.work(t); });
         sched::Trace tr = sched::run(bodies, prefix);
         std::string verdict;
@@ -62,7 +63,8 @@ struct Explorer { const Scenario &sc; int bound; std::string base; uint64_t sche
 
 static void part_sched() {
     int T = (int)opti("threads", 2); int tiny = (int)opti("tiny_n", quick() ? 1 : 2); int maxb = (int)opti("bound", 2);
-    for (auto &sc : scenarios(T, tiny)) {
+    std::vector<int> churn = quick() ? std::vector<int>{31, 63} : std::vector<int>{1, 3, 7, 15, 31, 63};
+    for (auto &sc : scenarios(T, tiny, churn)) {
         if (opt("scenario", "all") != "all" && opt("scenario") != sc.name.substr(0, 2)) continue;
         std::string base = fmt("sched/%s/T=%d", sc.name.c_str(), sc.nthreads);
         if (!S().only.empty()) { // replay of one schedule
